@@ -90,7 +90,9 @@ fn('neighbors._Neighbors._get_nhood_predictions', props='C03 C05 C07 C09 C10 C11
    ensures=['[C08,member] mem(self.arms, result) if is_predict else keys(result) == self.arms',
             # lp is left in a consistent (freshly trained) state
             'INV(lp)~soft', 'lp.arms == self.arms',
-            '(not isinstance(lp, _ThompsonSampling)) or is_none(lp.binarizer) or lp.is_contextual_binarized'])
+            '(not isinstance(lp, _ThompsonSampling)) or is_none(lp.binarizer) or lp.is_contextual_binarized',
+            '(not isinstance(lp, _ThompsonSampling)) or (lp.binarizer == old(lp.binarizer) and '
+            'lp.is_contextual_binarized == old(lp.is_contextual_binarized))'])
 
 fn('neighbors._Neighbors._get_no_nhood_predictions', props='C03 C08 C09',
    params={'lp': 'like:self.lp', 'is_predict': 'bool'},
@@ -112,7 +114,9 @@ RADIUS_ROW = ('(self._get_nhood_predictions(%s, within(%s, self.radius), %s, is_
               'else self._get_no_nhood_predictions(%s, is_predict))' % (SEEDED, DIST, ROW, DIST, SEEDED))
 KNN_ROW = 'self._get_nhood_predictions(%s, k_smallest(%s, self.k), %s, is_predict)' % (SEEDED, DIST, ROW)
 LOOP_INV = {0: ['INV(lp)~soft', 'lp.arms == self.arms',
-                '(not isinstance(lp, _ThompsonSampling)) or is_none(lp.binarizer) or lp.is_contextual_binarized']}
+                '(not isinstance(lp, _ThompsonSampling)) or is_none(lp.binarizer) or lp.is_contextual_binarized',
+                '(not isinstance(lp, _ThompsonSampling)) or (lp.binarizer == self.lp.binarizer and '
+                'lp.is_contextual_binarized == self.lp.is_contextual_binarized)']}
 klass('_Radius', fields={'radius': 'real const'}, inv=[])
 klass('_KNearest', fields={'k': 'int const'}, inv=['[C03,knn.k] self.k >= 1'])
 fn('neighbors._Radius._predict_contexts', props='C03 C05 C08 C09 C10',
